@@ -311,6 +311,17 @@ class Run:
             if k in cl.objects:
                 cl.delete(*k, force=True)
             cl.create(KEX, 'default', OBJECTS[act['obj']], {'spec': {'f': act['v']}})
+        elif a == 'clone':
+            # a user re-applies an exported manifest under another name: spec, labels and *all* annotations are copied
+            src = cl.objects.get(self.key(act['obj']))
+            if src is None or self.key(act['to']) in cl.objects:
+                eff = False
+            else:
+                body = {'spec': copy.deepcopy(src.get('spec', {})), 'metadata': {}}
+                for f in ('labels', 'annotations'):
+                    if src['metadata'].get(f):
+                        body['metadata'][f] = dict(src['metadata'][f])
+                eff = cl.create(KEX, 'default', OBJECTS[act['to']], body) is not None
         elif a == 'add_finalizer':
             def fn(b):
                 fins = b['metadata'].setdefault('finalizers', [])
@@ -387,6 +398,7 @@ class Run:
         elif a == 'break_watches':
             cl.break_watches(rkey=KEX, kind=act.get('kind', 'eof'))
         elif a == 'compact':
+            cl.rv += 1                 # (something else in the cluster moved on; the history of this kind is compacted up to here)
             cl.compact(KEX)
             cl.break_watches(rkey=KEX)
         elif a == 'fault':
